@@ -55,6 +55,15 @@ CHECKS = {
  "C13": ("fault_enumeration", "crash-point enumeration via guarded points + property-based timed SIGKILL",
          "For generated histories and victims, the victim's guarded points are recorded and the run is then killed at each (point, hit) from a restored pre-state, plus SIGKILLs at generated fractions of its duration; checkpoint/result/log observations must equal the pre-state (or, from the pointer write on, the complete victim), and the next run must succeed.",
          "crash points are the guarded points plus random kill times; unsynced-data (power loss) semantics are out of scope", "4/C13"),
+ "C14": ("exploration", "property-based testing of multi-process schedules with an interval-disjointness invariant (proptest + guarded point log)",
+         "Generated mixes of the four mutating APIs racing freely, and against a holder kept inside its critical section (gated helper or delay after acquisition) that ends normally, by failure or by SIGKILL; acquisition/release time stamps from the point log must never overlap, losers must fail with a lock error without starting anything or changing the out directory, and the next invocation must acquire at once.",
+         "schedules are sampled (start offsets, holder kind), not owned; lock.release is logged before the guard drops, a killed holder's interval ends at a pre-kill time stamp", "4/C14"),
+ "C15": ("fault_enumeration", "differential property testing with injected listener faults (proptest)",
+         "The same generated run plan is executed without a listener and with a real `log tail` or a harness-owned fake listener under generated faults (killed before the run, killed/closed after a delay, closed after N bytes, closed before the handshake); exit status, failed flag, every (status, code) and the decoded stored logs must be equal.",
+         "listener death times are sampled; a listener that stays connected but stops reading is outside the quantifier", "4/C15"),
+ "C20": ("exploration", "property-based testing of the tail stream with a block grammar and reassembly oracle (proptest)",
+         "Runs with groups of up to 8/24 concurrently writing tasks whose lines carry their identity, under a real `log tail` with generated filters and tokio worker counts; the captured listener output must parse as header-introduced blocks, every line must belong to its block's task, blocks must reassemble to the stored log per (stream,target,command), and only admitted keys may appear.",
+         "interleavings of the per-task flushes are sampled (tokio worker count, pauses around the flush tick), not owned", "4/C20"),
 }
 
 NOT_YET = {}
